@@ -714,6 +714,22 @@ func (g *c05Gen) generate(thorough bool) {
 		g.buildCase("heavy-with-neighbours", "v2", 1, ms, 10, 60)
 		g.buildCase("heavy-with-neighbours", "v1", 1, ms, 10, 60)
 	}
+	// buckets that outgrow the capacity the writer pre-allocates per prefix (16 000 hashes) once and twice over: the
+	// growth of a full bucket must keep what was already in it
+	{
+		var ms [][64]byte
+		for i := 0; i < 16001; i++ {
+			ms = append(ms, g.sig(0x1234))
+		}
+		for i := 0; i < 3; i++ {
+			ms = append(ms, g.sig(0x1233), g.sig(0x1235))
+		}
+		g.buildCase("past-preallocated-capacity", "v1", 1, ms, 10, 60)
+		for i := 0; i < 32003; i++ {
+			ms = append(ms, g.sig(0x00fe))
+		}
+		g.buildCase("past-preallocated-capacity", "v2", 1, ms, 10, 60)
+	}
 	n := 20000
 	if thorough {
 		n = 40000
